@@ -312,7 +312,8 @@ class RelativeSequence(AbstractSequence):
         if factor == 1:
             return
         if factor > 1:
-            for msg in self._messages:
+            # A message object can occur several times (e.g. after concatenating a sequence with itself)
+            for msg in {id(msg): msg for msg in self._messages}.values():
                 if msg.message_type == MessageType.WAIT:
                     msg.time = msg.time * factor
         # Handle special case, have to consider time signatures
